@@ -60,6 +60,69 @@ func mutateYAMLData(r *rand.Rand, text string) string {
 	return strings.Join(out, "\n")
 }
 
+// mutateYAMLSchema spoils one type text of the schema document (the document between "@sheet": "@DocConf" and the
+// next "---"): blanks around it, truncations, doubled text, another construct's brackets
+func mutateYAMLSchema(r *rand.Rand, text string) string {
+	lines := strings.Split(text, "\n")
+	in := false
+	var cands []int
+	for i, l := range lines {
+		if strings.HasPrefix(l, "\"@sheet\": \"@") && !strings.Contains(l, "@TABLEAU") {
+			in = true
+			continue
+		}
+		if l == "---" {
+			in = false
+		}
+		if in && strings.Contains(l, ": '") && strings.HasSuffix(l, "'") {
+			cands = append(cands, i)
+		}
+	}
+	if len(cands) == 0 {
+		return text
+	}
+	i := cands[r.Intn(len(cands))]
+	l := lines[i]
+	k := strings.Index(l, ": '")
+	head, t := l[:k+3], l[k+3:len(l)-1]
+	var nt string
+	switch r.Intn(12) {
+	case 0:
+		nt = " " + t
+	case 1:
+		nt = "\t" + t
+	case 2:
+		nt = t + " "
+	case 3:
+		nt = " "
+	case 4:
+		nt = ""
+	case 5:
+		nt = t + t
+	case 6:
+		nt = "[" + t
+	case 7:
+		nt = "map<" + t
+	case 8:
+		nt = "{" + t
+	case 9:
+		if len(t) > 1 {
+			nt = t[:len(t)-1]
+		}
+	case 10:
+		nt = "  " + t + "  "
+	default:
+		nt = "\n" + t
+	}
+	if strings.HasPrefix(nt, "\t") || strings.HasPrefix(nt, "\n") {
+		// control characters need a double-quoted YAML scalar
+		lines[i] = head[:len(head)-1] + "\"" + strings.ReplaceAll(strings.ReplaceAll(strings.ReplaceAll(nt, "\\", "\\\\"), "\t", "\\t"), "\n", "\\n") + "\""
+	} else {
+		lines[i] = head + nt + "'"
+	}
+	return strings.Join(lines, "\n")
+}
+
 func init() {
 	regStream("e2e.C17.docfuzz", func(r *rand.Rand, n int, emit func(string, ...string)) {
 		for i := 0; i < n; i++ {
@@ -69,7 +132,12 @@ func init() {
 	regImpl("c17.docfuzz", func(a []string) string {
 		r := rand.New(rand.NewSource(mustInt(a[0])))
 		nodes, vals := genDoc(r, false)
-		text := mutateYAMLData(r, renderYAML(nodes, vals))
+		text := renderYAML(nodes, vals)
+		if r.Intn(3) == 0 {
+			text = mutateYAMLSchema(r, text) // the schema side: protogen's document parser must return as well
+		} else {
+			text = mutateYAMLData(r, text)
+		}
 		w := newWorkspace()
 		defer w.cleanup()
 		ro := docBase(w)
